@@ -618,17 +618,51 @@ def match_known(pid, violation, known):
 
 
 def replay(pid, path):
+    """bin/check <id> --replay <file>: re-run one reported case in isolation."""
+    import tempfile
+    import algo
     with open(path) as f:
-        r = json.load(f)
+        try:
+            r = json.load(f)
+        except Exception:
+            print(open(path).read()[:20000])
+            return 1
     kind = r.get("kind")
-    if kind == "walk":
-        gh = vf.build_gh("o1")
+    d = vf.fresh_dir(os.path.join(vf.RUN, "replay"))
+    if r.get("crashed"):
+        print(json.dumps({k: v for k, v in r.items() if k != "stderr"}, indent=1)[:6000])
+        print("--- stderr of the harness ---")
+        print((r.get("stderr") or "")[-6000:])
+        print("REPLAY: the harness died on this call/case (re-running it in isolation:)")
+    if kind in ("walk", "walkpair") and "group" in r and ("call" in r or "act" in r):
+        gh = vf.build_gh(r.get("build", "o1") if r.get("build") in vf.BUILD_CONFIGS else "o1")
         return subprocess.run([gh, "replay", path]).returncode
+    if kind in ("algo", "io") and r.get("case"):
+        cf = os.path.join(d, "case.ndjson")
+        with open(cf, "w") as f:
+            f.write(json.dumps(r["case"]) + "\n")
+        exe = vf.build_ioh("o1") if (kind == "io" or str(r["case"].get("k", "")).startswith(("bin_", "text_", "big_bin", "big_text", "unopenable"))) else vf.build_ah("o1")
+        extra = {"families": [r["family"]]} if r.get("family") else None
+        res = algo.run_ah_on_file("replay", "case", cf, exe, 1, extra_plan=extra)
+        a = res.get("ah")
+        if a is None:
+            print("REPLAY: the harness died again:", json.dumps(res.get("crash"))[:3000])
+            return 1
+        print(json.dumps({"failures": a["failures"], "notes": a["fail_notes"]}, indent=1))
+        print("REPLAY: diverges" if a["failures"] else "REPLAY: conforms")
+        return 1 if a["failures"] else 0
+    if kind == "record" and r.get("record", {}).get("k") in ("bfs", "dijkstra", "remap"):
+        rf = os.path.join(d, "record.ndjson")
+        with open(rf, "w") as f:
+            f.write(json.dumps(r["record"]) + "\n")
+        v = algo.validate_records("replay", "record", rf, invariants=("AllResultsOK", "AllScansOK"))
+        print(json.dumps(r["record"])[:3000])
+        print("REPLAY: TLC (SearchTrace.tla) " + ("rejects" if v["rejected"] else "accepts") + " this record")
+        return 1 if v["rejected"] else 0
     if kind == "tlc":
-        print(open(r["log"]).read())
+        print(open(r["log"]).read()[-20000:])
         return 1
-    if kind == "trace":
-        print(json.dumps(r, indent=1))
-        return 1
-    print("unknown replay kind")
-    return 2
+    print(json.dumps(r, indent=1)[:20000])
+    return 1
+
+
